@@ -63,7 +63,7 @@ def gen_spec(rnd, lib):
                       "unit": rnd.choice([None, "", "mV"]), "definition": rnd.choice([None, "", "def"]),
                       "unc": unc, "ref": strs(), "file": strs(), "enc": strs(), "chk": strs()})
     dims = [rnd.choice(["alias", "alias", "ticks", "linked"]) for _ in range(rnd.randint(0, 3))]
-    return {"version": version, "has_id": rnd.random() < 0.4, "props": props, "dims": dims}
+    return {"version": version, "has_id": rnd.random() < 0.4, "props": props, "dims": dims, "linker": rnd.random() < 0.4}
 
 
 def n_steps(spec, lib):
